@@ -202,6 +202,7 @@ class ConcreteProvider:
         else:
             scale = 1.0 + max(np.max(np.abs(l), initial=0.0), np.max(np.abs(r), initial=0.0))
             bad = ~(np.abs(l - r) <= tol * scale)
+        bad = bad & ~(np.isnan(l) & np.isnan(r))  # NaN on both sides (a singular solve in both runs) is not a difference
         if bad.any():
             i = int(np.argmax(bad))
             self.failures.append({"name": name, "msg": "entry %d: %r != %r (tol %g)" % (i, float(l[i]), float(r[i]), tol * scale)})
